@@ -59,6 +59,13 @@ pub fn run(rng: &mut Rng, out: &mut Fails) {
             // forecasts = mean + recursion on centred history
             let mut hist: Vec<f64> = c.clone();
             for i in 0..h { let mut v = 0.; for j in 1..=p { v += phi[j - 1] * hist[hist.len() - j]; } hist.push(v); if !close(f1[i], m + v, 1e-7 * (1. + m.abs())) { fail(out, "AR::predict", "C13.predict.recursion", format!("{} p={} step {}", inp, p, i), format!("{}", f1[i]), format!("{}", m + v)); break; } }
+            // the fitted model applied to a history that is NOT the fitted series (its last p + 1 points): still centred on the fitted mean
+            if ts.len() > p + 2 {
+                let w = &ts[ts.len() - (p + 1)..];
+                let fw = ar.predict(w, h);
+                let mut hw: Vec<f64> = w.iter().map(|v| v - m).collect();
+                for i in 0..h { let mut v = 0.; for j in 1..=p { v += phi[j - 1] * hw[hw.len() - j]; } hw.push(v); if !close(fw[i], m + v, 1e-7 * (1. + m.abs())) { fail(out, "AR::predict", "C13.predict.recursion", format!("{} p={} history=last {} points step {}", inp, p, p + 1, i), format!("{}", fw[i]), format!("{}", m + v)); break; } }
+            }
         }
         if out.len() > 6 { return; }
     }
